@@ -37,6 +37,10 @@ pub fn zone_recs() -> Vec<Rec> {
         r("c.t.", t::CNAME, wname("a.t.")),
         r("loop1.t.", t::CNAME, wname("loop2.t.")),
         r("loop2.t.", t::CNAME, wname("loop1.t.")),
+        // wildcard CNAMEs whose chase ends in NXDOMAIN / in a loop (SERVFAIL):
+        // error responses that involved wildcard synthesis
+        r("*.m.t.", t::CNAME, wname("missing.t.")),
+        r("*.l.t.", t::CNAME, wname("loop.l.t.")),
         r("d.t.", t::NS, wname("ns.d.t.")),
         r("ns.d.t.", t::A, vec![192, 0, 2, 30]),
     ]
@@ -166,7 +170,10 @@ pub fn menu() -> Vec<Kind> {
         kind("nx2-edns", "nx2.t.", t::A, Edns, u, Q, 3, "nx2.t."),
         kind("nx1-TXT-tsig", "nx1.t.", t::TXT, EdnsTsig, u, Q, 3, "nx1.t."),
         kind("nx-below-a", "x.a.t.", t::A, Plain, u, Q, 3, "x.a.t."),
+        kind("nx-via-wildcard-cname", "q.m.t.", t::A, Plain, u, Q, 3, "q.m.t."),
+        kind("nx-via-wildcard-cname-2", "r.m.t.", t::TXT, Edns, u, Q, 3, "r.m.t."),
         // ---- other RCODEs
+        kind("servfail-wildcard-loop", "q.l.t.", t::A, Plain, u, Q, 2, "q.l.t."),
         kind("refused-x", "x.u.", t::A, Plain, u, Q, 5, "x.u."),
         kind("refused-y-edns", "y.u.", t::A, Edns, u, Q, 5, "y.u."),
         kind("notimp-axfr", "a.t.", t::AXFR, Plain, u, Q, 4, "a.t."),
